@@ -159,6 +159,43 @@ def frozen_ok(value_spec, stored):
   return True
 
 
+def untyped_member(pg, spec, value):
+  """Path of a dict / list member that sits where its spec says Dict(schema) / List but is NOT a symbolic
+  container bound to a value spec (so later writes into it are never validated); None if there is none.
+  Walks through typed dicts, lists, TUPLES (fixed and variable) and Union candidates."""
+  T = pg.typing
+  if isinstance(spec, T.Union):
+    for c in spec.candidates:
+      if c.value_type is not None and isinstance(value, c.value_type) and isinstance(c, (T.Dict, T.List, T.Tuple)):
+        return untyped_member(pg, c, value)
+    return None
+  if spec.frozen:
+    return None
+  if isinstance(spec, T.Dict) and spec.schema is not None and isinstance(value, dict):
+    if not isinstance(value, pg.Dict) or value.value_spec is None:
+      return ''
+    for k, v in value.sym_items():
+      f = spec.schema.get_field(k)
+      if f is not None:
+        r = untyped_member(pg, f.value, v)
+        if r is not None:
+          return '%s.%s' % (k, r)
+  elif isinstance(spec, T.List) and isinstance(value, list):
+    if not isinstance(value, pg.List) or value.value_spec is None:
+      return ''
+    for i, v in enumerate(value.sym_values()):
+      r = untyped_member(pg, spec.element.value, v)
+      if r is not None:
+        return '[%d]%s' % (i, r)
+  elif isinstance(spec, T.Tuple) and isinstance(value, tuple):
+    for i, v in enumerate(value):
+      es = spec.elements[i if spec.fixed_length and i < len(spec.elements) else 0].value
+      r = untyped_member(pg, es, v)
+      if r is not None:
+        return '[%d]%s' % (i, r)
+  return None
+
+
 def member_ok(value_spec, wire, partial):
   """The stored member (wire form), JSON-round-tripped, is accepted by its spec and mapped to itself."""
   try:
@@ -515,9 +552,41 @@ class C03(Prop):
         ops.append([[('setattr' if kind == 'object' else 'setitem'), 'u', ['s', 'ab']], None])
     return {'kind': kind, 'spec': spec, 'partial': False, 'items': [['u', start if rng.chance(0.6) else ['s', 'a']]], 'ops': ops}
 
+  def gen_ext_schema(self, rng, g):
+    """A Dict whose schema comes from an EXTENSION with two overlapping dynamic keys (inherited first):
+    per-key writes must be validated by the same field (the first that matches) as the constructor."""
+    spec_a = {'k': 'int', 'lo': rng.choice([0, 0, 1]), 'hi': None, 'n': 0}
+    spec_b = {'k': 'str', 'rx': None, 'n': 0}
+    rx = rng.choice([0, 1])
+    if rng.chance(0.6):
+      base, own = [['k', rx], spec_a], [['k', None], spec_b]       # inherited specific, own general
+    else:
+      base, own = [['k', None], spec_b], [['k', rx], spec_a]       # inherited general, own specific
+    fields = [own]
+    if rng.chance(0.5):
+      fields.insert(0, [['c', 'x'], g.spec(0)])
+    spec = {'k': 'dict', 'fields': fields, 'n': 0, 'ext': {'k': 'dict', 'fields': [base], 'n': 0}}
+    both = {0: ['ab', 'abc', 'a'], 1: ['b', 'xb', 'ab']}[rx]
+    vals = [['s', 'lots'], ['i', 3], ['i', -2], ['s', 'a'], ['f', 1, 1]]
+    items = []
+    xf = [f for f in fields if f[0][0] == 'c']
+    if xf:
+      items.append(['x', g.valid(xf[0][1])])
+    if rng.chance(0.4):
+      items.append([rng.choice(both), copy.deepcopy(rng.choice(vals))])
+    ops = []
+    for _ in range(rng.randint(1, 4)):
+      k = rng.choice(both + ['q'])
+      v = copy.deepcopy(rng.choice(vals))
+      c = rng.choice(['setitem', 'rebind', 'update', 'setdefault', 'ior'])
+      ops.append([[c, [[k, v]]] if c in ('rebind', 'update', 'ior') else [c, k, v], None])
+    return {'kind': 'dict', 'spec': spec, 'partial': False, 'items': items, 'ops': ops}
+
   def gen_dict(self, rng, g, kind):
     if rng.chance(0.05):
       return self.gen_typed_into_union(rng, g, kind)
+    if kind == 'dict' and rng.chance(0.08):
+      return self.gen_ext_schema(rng, g)
     if rng.chance(0.3):
       return self.gen_nested(rng, g, kind)
     while True:
@@ -527,10 +596,27 @@ class C03(Prop):
         # field kinds: atoms (some frozen + optional), Object-typed, and a guaranteed share of
         # container-typed fields (list / dict with schema / Union[container, Str])
         shape = rng.weighted([(30, 'any'), (8, 'frozen-optional'), (14, 'object'), (16, 'list'), (16, 'dict'), (16, 'union'),
-                              (8, 'conv-union')])
+                              (8, 'conv-union'), (8, 'tuple-of-containers')])
         fd = g.spec(rng.weighted([(3, 0), (3, 1)]))
         if shape == 'conv-union':
           fd = self.conv_union(rng, g)
+        if shape == 'tuple-of-containers':
+          inner = None
+          for _try in range(20):
+            c = g.spec(1)
+            if c['k'] == 'list' or (c['k'] == 'dict' and c.get('fields')):
+              inner = c
+              break
+          if inner is not None:
+            inner['n'] = 0
+            inner.pop('d', None)
+            inner.pop('fz', None)
+            self.tidy_inner(inner, top=True)
+            if rng.chance(0.65):
+              mn = rng.choice([None, 0, 1])
+              fd = {'k': 'tuple', 'elem': inner, 'mn': mn, 'mx': (mn or 0) + rng.randint(1, 2), 'n': 0}
+            else:
+              fd = {'k': 'tuple', 'elems': [inner] + [g.spec(0) for _ in range(rng.below(2))], 'n': 0}
         if shape in ('list', 'dict', 'union'):
           inner = None
           for _try in range(20):
@@ -558,24 +644,47 @@ class C03(Prop):
             fd.pop('d')
             fd.pop('fz', None)
         fields.append([['c', nm], fd])
+      ext = None
       if kind == 'dict' and rng.chance(0.35):
         fields.append([['k', rng.choice([None, 0, 1])], g.spec(0)])
+        if rng.chance(0.35):
+          # the schema is obtained by EXTENSION of a base with an overlapping dynamic key: an inherited
+          # specific key spec before the own general one, or the other way round
+          own = fields[-1][0][1]
+          brx = rng.choice([r for r in (None, 0, 1) if r != own])
+          ext = {'k': 'dict', 'fields': [[['k', brx], g.spec(0)]], 'n': 0}
       spec = {'k': 'dict', 'fields': fields, 'n': 0}
+      if ext is not None:
+        spec['ext'] = ext
       try:
         tv.build(spec)
       except (TypeError, ValueError, KeyError):
         continue
       break
     partial = rng.chance(0.25)
+    if ext is not None:
+      fields = ext['fields'] + fields            # the merged schema: inherited fields first
+    import re as _re
     dyn = [f for f in fields if f[0][0] == 'k']
-    dyn_names = {None: ['p', 'ab', 'b', 'q'], 0: ['ab', 'abc', 'a'], 1: ['b', 'xb', 'ab']}[dyn[0][0][1]] if dyn else []
-    dyn_names = [n for n in dyn_names if n not in names]
+    pool = ['p', 'ab', 'b', 'q', 'abc', 'a', 'xb']
+
+    def dyn_field(key):
+      for f in dyn:
+        if f[0][1] is None or _re.match(tv.REGEX_POOL[f[0][1]], key):
+          return f
+      return None
+    dyn_names = [n for n in pool if n not in names and dyn_field(n) is not None]
+    if len(dyn) > 1:
+      both = [n for n in dyn_names if all(f[0][1] is None or _re.match(tv.REGEX_POOL[f[0][1]], n) for f in dyn)]
+      dyn_names = both + [n for n in dyn_names if n not in both]   # keys matched by BOTH dynamic fields first
+      dyn_names = dyn_names[:max(len(both), 1) + 1]
 
     def field_of(key):
       for f in fields:
         if f[0][0] == 'c' and f[0][1] == key:
           return f[1]
-      return dyn[0][1] if dyn and key in dyn_names else None
+      f = dyn_field(key) if key in dyn_names else None
+      return f[1] if f is not None else None
 
     def container_desc(fd):
       if fd['k'] == 'list' or (fd['k'] == 'dict' and fd.get('fields')):
@@ -898,6 +1007,8 @@ class C03(Prop):
       out['model'] = {'construct': type(e).__name__, 'steps': []}
       return out
     m = {'construct': content(target), 'conforms': conforms(target, True), 'complete': conforms(target, False), 'steps': []}
+    attr_dict = target._sym_attributes if is_object else target
+    out['untyped_member'] = [untyped_member(pg, spec, attr_dict)]
     typed = []
     for op, scope in case['ops']:
       err = None
@@ -935,6 +1046,7 @@ class C03(Prop):
                          'complete': conforms(target, False)})
       out.setdefault('why_steps', []).append(why[n0:])
       typed.append(is_object or target.value_spec is not None)
+      out['untyped_member'].append(untyped_member(pg, spec, attr_dict))
     out['model'] = m
     out['typed'] = all(typed) if typed else True
     return out
@@ -998,6 +1110,11 @@ class C03(Prop):
           'constructed %s %s violates its spec %s' % (kind, json.dumps(m['construct']), json.dumps(st)))
     if not out.get('typed', True):
       add('value-spec-lost:' + kind, 'the container is no longer bound to its value spec')
+    um = [u for u in (out.get('untyped_member') or []) if u is not None]
+    if um:
+      add('untyped-member:' + kind,
+          'the member at %r is a plain / unbound container although its spec is a Dict with schema or a List: '
+          'writes into it are not validated' % um[0])
     # `partial_allowed`: the container's own mode, or it HAS been made partial under a permission
     # (its constructor argument / an enclosing pg.allow_partial(True) scope) -- a scope that was merely
     # active while a complete value was written gives no permission for later
